@@ -25,6 +25,21 @@ CLAIMED = {
                 "helpers. NRVO of `return slice;` is assumed (g++/clang always elide it).",
         "design": "4/C12",
     },
+    "C14": {
+        "rules": "R-CURSOR, R-NOWRAP, R-ATOMIC, R-NARROW, R-COUNT(copy loop), R-OPENMODE, R-SEQ(helper lengths)",
+        "text": "Static analysis of the writer classes: the fixed-buffer writer's cursor invariant and wrap-free guards "
+                "(including arithmetic handed on to Seek), failure-before-change order, the growing writer's size "
+                "arithmetic before resize and its explicit zero fill, the refusal that dominates the size-prefix "
+                "narrowing cast in every instantiated prefix width, the one-count-per-iteration shape of the "
+                "reader-to-writer copy loop, agreement of typed write/read length expressions, and the complete "
+                "decision table of FileWriter::TranslateFlags (16 flag words x file present/absent) extracted from "
+                "its CFG and compared with the refusal / truncate / append requirements. Necessary structural "
+                "conditions of C14 for all arguments; written bytes are not examined.",
+        "note": "Declined: buffer/disk contents after histories; std::ofstream internals beyond the open-mode table; "
+                "flag words the property does not describe (neither Truncate nor Append). ios_base flag values are "
+                "libstdc++'s (app=1, ate=2, binary=4, in=8, out=16, trunc=32), read back from clang's constant evaluation.",
+        "design": "4/C14",
+    },
 }
 
 PENDING_REASON = "check not built yet in this revision (planned: DESIGN.md section 4 lists the structural clauses); not claimed until its rules run clean on the tree"
